@@ -329,10 +329,11 @@ def _chunk(topic, k):
 def _exc_tok(e):
     if isinstance(e, Injected):
         return f"Injected[{e.ident}]"
-    if isinstance(e, RuntimeError) and "saver already closed" in str(e):
-        return "AlreadyClosed"          # Saver.close on a closed saver
-    if isinstance(e, RuntimeError) and "Attmpt to save to" in str(e):
+    # (both messages embed the saver's metadata, which may contain the traceback TEXT of an earlier exception: anchor them)
+    if isinstance(e, RuntimeError) and str(e).startswith("Attmpt to save to"):
         return "SaveToClosed"           # Saver.save on a closed saver
+    if isinstance(e, RuntimeError) and str(e).endswith("saver already closed"):
+        return "AlreadyClosed"          # Saver.close on a closed saver
     for k in (AssertionError, RuntimeError, KeyError, ValueError, TypeError):
         if isinstance(e, k):
             return k.__name__
@@ -762,6 +763,12 @@ GRAPHS = {
         dict(name="ss", kind="source"),
         dict(name="mm", kind="row", deps=["ss"], save="always", parallel=True),
         dict(name="tt", kind="row", deps=["mm"], save="target", parallel=True)]),
+    # worker pool + parallel MULTI-OUTPUT plugin whose LAST output leads to the target (the first one is discarded): a
+    # failing compute arrives in the divide_outputs thread itself, as the exception of a future
+    "parmulti": dict(nch=3, target="tt", nodes=[
+        dict(name="ss", kind="source"),
+        dict(name="mo", kind="multi", deps=["ss"], provides=["xx", "yy", "zz"], saves=dict(yy="always"), parallel=True),
+        dict(name="tt", kind="row", deps=["zz"], save="target", parallel=True)]),
 }
 
 
@@ -1034,10 +1041,15 @@ def _exc_name(e):
     if isinstance(e, Injected):
         return f"Injected[{e.ident}]"
     msg = str(e)
-    for marker in ("saver already closed", "did not terminate", "in time", "emptied too slow", "generator raised StopIteration"):
-        if marker in msg:
-            msg = marker
-            break
+    if msg.startswith("Attmpt to save to"):       # Saver.save on a closed saver (the text embeds the saver's metadata)
+        msg = "save to closed saver"
+    elif msg.endswith("saver already closed"):    # Saver.close on a closed saver (ditto)
+        msg = "saver already closed"
+    else:
+        for marker in ("did not terminate", "in time", "emptied too slow", "generator raised StopIteration"):
+            if marker in msg:
+                msg = marker
+                break
     msg = "".join(ch if ch.isalnum() else "_" for ch in msg)[:60]
     return f"{type(e).__name__}({msg})"
 
@@ -1284,7 +1296,7 @@ def pipeline_cases(rng, n_sched, graphs=None):
     ident = 100
     for gname in graphs or list(GRAPHS):
         for cfg in CONFIGS:
-            if gname == "par" and not cfg["workers"]:
+            if gname in ("par", "parmulti") and not cfg["workers"]:
                 continue
             positions = [None] + fault_positions(gname)
             for pos in positions:
@@ -1319,7 +1331,7 @@ def warm_up():
     S.HANG_TIMEOUT = max(S.HANG_TIMEOUT, 600.0)
     _pin()
     try:
-        for gname, proc, workers in (("chain", "threaded_mailbox", None), ("multi", "threaded_mailbox", 2),
+        for gname, proc, workers in (("chain", "threaded_mailbox", None), ("multi", "threaded_mailbox", 2), ("parmulti", "threaded_mailbox", 2),
                                      ("loader", "single_thread", None), ("diamond", "threaded_mailbox", None),
                                      ("lag:4:8", "threaded_mailbox", None), ("tree", "single_thread", None)):
             run_pipeline(dict(graph=gname, proc=proc, lazy=0, workers=workers, cap=8, fault=None, ident=0,
